@@ -1175,4 +1175,315 @@ theorem done_head_of_mem {s : State} (h : InvA s) (hm : s.nextDeq ∈ tks s.done
       have := hg it.ticket (Or.inl rfl)
       omega
 
+/-! ### failure reporting invariant -/
+
+structure InvC (cfg : Cfg) (s : State) : Prop where
+  /-- the `rc` a worker carries to `store_completed` is what the callback returned for that item -/
+  finRc : ∀ (i : Nat) (it : Item) (rc : Int), s.workers[i]? = some (WPc.finishing it rc) → rc = cfg.rcOf it.data
+  /-- a non-zero status is the return value of a callback that ran (or −1 set by `destroy`) -/
+  statusFrom : s.status ≠ 0 → s.main.inJoin ∨ ∃ p ∈ s.started, cfg.rcOf p.2.data = s.status
+  /-- a failure is never lost: once the failing worker has passed `store_completed` the status is non-zero -/
+  failSeen : ∀ p ∈ s.started, cfg.rcOf p.2.data ≠ 0 → s.status ≠ 0 ∨ p.2.ticket ∈ tkF s
+
+theorem invC_init (cfg : Cfg) (n : Nat) : InvC cfg (init n) := by
+  constructor
+  · intro i it rc hi
+    simp only [init, getElem?_replicate] at hi
+    split at hi <;> simp at hi
+  · intro h; simp [init] at h
+  · intro p hp; simp [init] at hp
+
+theorem InvC.frame {cfg : Cfg} {s s' : State} (h : InvC cfg s)
+    (hfin : ∀ (i : Nat) (it : Item) (rc : Int), s'.workers[i]? = some (WPc.finishing it rc) →
+      ∃ j : Nat, s.workers[j]? = some (WPc.finishing it rc))
+    (hst : s'.status = s.status) (hstarted : s'.started = s.started)
+    (hjoin : s.main.inJoin → s'.main.inJoin) (htk : tkF s' = tkF s) : InvC cfg s' := by
+  constructor
+  · intro i it rc hi
+    obtain ⟨j, hj⟩ := hfin i it rc hi
+    exact h.finRc j it rc hj
+  · intro h0
+    rw [hst] at h0 ⊢
+    rw [hstarted]
+    rcases h.statusFrom h0 with h1 | h1
+    · exact Or.inl (hjoin h1)
+    · exact Or.inr h1
+  · intro p hp hrc
+    rw [hstarted] at hp
+    rw [hst, htk]
+    exact h.failSeen p hp hrc
+
+theorem getElem?_wakeAll_finishing (ws : List WPc) (j : Nat) (it : Item) (rc : Int)
+    (h : (wakeAll ws)[j]? = some (.finishing it rc)) : ws[j]? = some (.finishing it rc) := by
+  simp only [wakeAll, getElem?_map] at h
+  cases hj : ws[j]? with
+  | none => simp [hj] at h
+  | some pc => cases pc <;> simp_all [wakeW]
+
+theorem InvC.getNextWork {cfg : Cfg} {s : State} {i : Nat} {pc : WPc} (h : InvC cfg s)
+    (hi : s.workers[i]? = some pc) (hpc : pc.held = []) : InvC cfg (getNextWork s i) := by
+  obtain ⟨_, hpf⟩ := held_nil_tk hpc
+  unfold Sqfs.Pool.getNextWork
+  split
+  · refine h.frame ?_ rfl rfl id (flatMap_set_same _ _ _ _ _ hi (by rw [hpf]; rfl))
+    intro j it rc hj
+    rcases getElem?_set_cases _ _ _ _ _ hj with ⟨_, hb⟩ | ⟨_, hj⟩
+    · simp at hb
+    · exact ⟨j, hj⟩
+  · split
+    · refine h.frame ?_ rfl rfl id (flatMap_set_same _ _ _ _ _ hi (by rw [hpf]; rfl))
+      intro j it rc hj
+      rcases getElem?_set_cases _ _ _ _ _ hj with ⟨_, hb⟩ | ⟨_, hj⟩
+      · simp at hb
+      · exact ⟨j, hj⟩
+    · refine h.frame ?_ rfl rfl id (flatMap_set_same _ _ _ _ _ hi (by rw [hpf]; rfl))
+      intro j it rc hj
+      rcases getElem?_set_cases _ _ _ _ _ hj with ⟨_, hb⟩ | ⟨_, hj⟩
+      · simp at hb
+      · exact ⟨j, hj⟩
+
+/-- the item a `finishing` worker holds has a `started` entry with the same data -/
+theorem started_of_finishing {s : State} (hA : InvA s) {i : Nat} {it : Item} {rc : Int}
+    (hi : s.workers[i]? = some (.finishing it rc)) : ∃ p ∈ s.started, p.2.ticket = it.ticket ∧ p.2.data = it.data := by
+  have hmemF : it.ticket ∈ tkF s := mem_flatMap_of_getElem? _ _ _ _ _ hi (by simp [WPc.tkF])
+  have : it.ticket ∈ s.started.map (·.2.ticket) := by
+    rw [hA.startedPerm.mem_iff]
+    simp only [mem_append]
+    exact Or.inr hmemF
+  obtain ⟨p, hp, hpt⟩ := mem_map.1 this
+  refine ⟨p, hp, hpt, ?_⟩
+  have h1 := hA.startedData p hp
+  have h2 := hA.data it (Or.inr (Or.inr (Or.inr (mem_flatMap_of_getElem? _ _ _ _ _ hi (by simp [WPc.held])))))
+  rw [hpt, h2] at h1
+  exact (Option.some.inj h1).symm
+
+theorem invC_stepWorker (cfg : Cfg) {s s' : State} (i : Nat) (spur : Bool) (hA : InvA s) (h : InvC cfg s)
+    (hs : stepWorker cfg s i spur = some s') : InvC cfg s' := by
+  unfold stepWorker at hs
+  split at hs
+  · simp at hs
+  · rename_i hi
+    split at hs
+    · simp at hs
+    · simp only [Option.some.injEq] at hs; subst hs
+      exact h.getNextWork hi rfl
+  · rename_i sig hi
+    split at hs
+    · simp only [Option.some.injEq] at hs; subst hs
+      exact h.getNextWork hi rfl
+    · simp at hs
+  · -- the callback runs
+    rename_i it hi
+    split at hs
+    · simp at hs
+    · simp only [Option.some.injEq] at hs; subst hs
+      have hF : ∀ t, count t ((s.workers.set i (.finishing it (cfg.rcOf it.data))).flatMap WPc.tkF)
+          = count t (s.workers.flatMap WPc.tkF) + count t [it.ticket] := by
+        intro t
+        have := count_flatMap_set WPc.tkF s.workers i _ (.finishing it (cfg.rcOf it.data)) t hi
+        simpa [WPc.tkF] using this
+      constructor
+      · intro j it' rc hj
+        rcases getElem?_set_cases _ _ _ _ _ hj with ⟨_, hb⟩ | ⟨_, hj⟩
+        · simp only [WPc.finishing.injEq] at hb
+          rw [hb.1, hb.2]
+        · exact h.finRc j it' rc hj
+      · intro h0
+        rcases h.statusFrom h0 with h1 | ⟨p, hp, hprc⟩
+        · exact Or.inl h1
+        · exact Or.inr ⟨p, mem_append_left _ hp, hprc⟩
+      · intro p hp hrc
+        rcases mem_append.1 hp with hp | hp
+        · rcases h.failSeen p hp hrc with h1 | h1
+          · exact Or.inl h1
+          · right
+            have := count_pos_iff.2 h1
+            apply count_pos_iff.1
+            have h2 := hF p.2.ticket
+            simp only [tkF] at this ⊢
+            omega
+        · simp only [mem_singleton] at hp; subst hp
+          right
+          apply count_pos_iff.1
+          have h2 := hF it.ticket
+          simp only [count_singleton, beq_self_eq_true, if_true] at h2
+          simp only [tkF]
+          omega
+  · -- store_completed
+    rename_i it rc hi
+    split at hs
+    · simp at hs
+    · simp only [Option.some.injEq] at hs; subst hs
+      have hrc := h.finRc i it rc hi
+      have hF : ∀ t, count t ((s.workers.set i .start).flatMap WPc.tkF) + count t [it.ticket]
+          = count t (s.workers.flatMap WPc.tkF) := by
+        intro t
+        have := count_flatMap_set WPc.tkF s.workers i _ .start t hi
+        simpa [WPc.tkF] using this
+      obtain ⟨p0, hp0, hp0t, hp0d⟩ := started_of_finishing hA hi
+      refine InvC.getNextWork (pc := .start) ?_ (getElem?_set_self' _ _ _ _ hi) rfl
+      constructor
+      · intro j it' rc' hj
+        rcases getElem?_set_cases _ _ _ _ _ hj with ⟨_, hb⟩ | ⟨_, hj⟩
+        · simp at hb
+        · exact h.finRc j it' rc' hj
+      · intro h0
+        show (wakeMain s.main).inJoin ∨ ∃ p ∈ s.started, cfg.rcOf p.2.data = (if rc ≠ 0 ∧ s.status = 0 then rc else s.status)
+        by_cases hc : rc ≠ 0 ∧ s.status = 0
+        · right
+          refine ⟨p0, hp0, ?_⟩
+          rw [if_pos hc, hp0d, hrc]
+        · have h0' : s.status ≠ 0 := by
+            intro hx
+            apply h0
+            show (if rc ≠ 0 ∧ s.status = 0 then rc else s.status) = 0
+            rw [if_neg hc]; exact hx
+          rw [if_neg hc]
+          rcases h.statusFrom h0' with h1 | h1
+          · exact Or.inl ((wakeMain_inJoin _).2 h1)
+          · exact Or.inr h1
+      · intro p hp hprc
+        show (if rc ≠ 0 ∧ s.status = 0 then rc else s.status) ≠ 0 ∨ p.2.ticket ∈ (s.workers.set i .start).flatMap WPc.tkF
+        rcases h.failSeen p hp hprc with h1 | h1
+        · left
+          by_cases hc : rc ≠ 0 ∧ s.status = 0
+          · exact absurd hc.2 h1
+          · rw [if_neg hc]; exact h1
+        · by_cases ht : p.2.ticket = it.ticket
+          · left
+            -- same ticket, hence same data, hence this very failure
+            have hd : p.2.data = it.data := by
+              have h1 := hA.startedData p hp
+              have h2 := hA.startedData p0 hp0
+              rw [ht] at h1; rw [hp0t] at h2
+              rw [h1] at h2
+              rw [← hp0d]; exact Option.some.inj h2
+            have hne : rc ≠ 0 := by rw [hrc, ← hd]; exact hprc
+            by_cases h0 : s.status = 0
+            · rw [if_pos ⟨hne, h0⟩]; exact hne
+            · rw [if_neg (fun hc => h0 hc.2)]; exact h0
+          · right
+            apply count_pos_iff.1
+            have := count_pos_iff.2 h1
+            have h2 := hF p.2.ticket
+            have h3 : count p.2.ticket [it.ticket] = 0 := by
+              simp only [count_singleton, beq_iff_eq]
+              rw [if_neg (fun hx => ht hx.symm)]
+            simp only [tkF] at this
+            omega
+  · simp at hs
+
+theorem invC_stepMain (cfg : Cfg) {s s' : State} (c : MChoice) (h : InvC cfg s)
+    (hs : stepMain cfg s c = some s') : InvC cfg s' := by
+  have keep : ∀ (i : Nat) (it : Item) (rc : Int), s.workers[i]? = some (WPc.finishing it rc) →
+      ∃ j : Nat, s.workers[j]? = some (WPc.finishing it rc) := fun i _ _ hi => ⟨i, hi⟩
+  unfold stepMain at hs
+  split at hs
+  · simp only [Option.some.injEq] at hs; subst hs
+    rename_i hmain
+    exact h.frame keep rfl rfl (by simp [hmain, MPc.inJoin]) rfl
+  · rename_i hmain
+    split at hs
+    · simp only [Option.some.injEq] at hs; subst hs
+      exact h.frame keep rfl rfl id rfl
+    · split at hs
+      · simp only [Option.some.injEq] at hs; subst hs
+        exact h.frame keep rfl rfl (by simp [hmain, MPc.inJoin]) rfl
+      · simp only [Option.some.injEq] at hs; subst hs
+        exact h.frame keep rfl rfl (by simp [hmain, MPc.inJoin]) rfl
+  · simp only [Option.some.injEq] at hs; subst hs
+    rename_i hmain
+    exact h.frame keep rfl rfl (by simp [hmain, MPc.inJoin]) rfl
+  · simp only [Option.some.injEq] at hs; subst hs
+    rename_i hmain
+    exact h.frame keep rfl rfl (by simp [hmain, MPc.inJoin]) rfl
+  · rename_i d hmain
+    simp only [Option.some.injEq] at hs; subst hs
+    have hst : (submitBody s d).status = s.status := by
+      unfold submitBody; by_cases h0 : s.status = 0 <;> simp [h0]
+    have hws : (submitBody s d).workers = wakeAll s.workers := by
+      unfold submitBody; by_cases h0 : s.status = 0 <;> simp [h0]
+    have hsta : (submitBody s d).started = s.started := by
+      unfold submitBody; by_cases h0 : s.status = 0 <;> simp [h0]
+    refine h.frame ?_ hst hsta (by simp [hmain, MPc.inJoin]) ?_
+    · intro j it rc hj; rw [hws] at hj; exact ⟨j, getElem?_wakeAll_finishing _ _ _ _ hj⟩
+    · simp only [tkF, hws]; exact flatMap_tkF_wakeAll _
+  · rename_i hmain
+    simp only [Option.some.injEq] at hs; subst hs
+    refine h.frame ?_ ?_ ?_ (by simp [hmain, MPc.inJoin]) ?_ <;>
+      (unfold deqTry deqWaitOrNull deqReturn; split <;> (try split) <;> (try split) <;> first | rfl | exact keep)
+  · rename_i sig spur hmain
+    split at hs
+    · simp only [Option.some.injEq] at hs; subst hs
+      refine h.frame ?_ ?_ ?_ (by simp [hmain, MPc.inJoin]) ?_ <;>
+        (unfold deqTry deqWaitOrNull deqReturn; split <;> (try split) <;> (try split) <;> first | rfl | exact keep)
+    · simp at hs
+  · simp only [Option.some.injEq] at hs; subst hs
+    rename_i hmain
+    exact h.frame keep rfl rfl (by simp [hmain, MPc.inJoin]) rfl
+  · -- destroyLock
+    simp only [Option.some.injEq] at hs; subst hs
+    have hj : (if s.workers.length = 0 then MPc.finished else MPc.join 0).inJoin := by
+      split <;> trivial
+    constructor
+    · intro j it rc hj'
+      exact h.finRc j it rc (getElem?_wakeAll_finishing _ _ _ _ hj')
+    · intro _; exact Or.inl hj
+    · intro p _ _; left; show (-1 : Int) ≠ 0; decide
+  · split at hs
+    · split at hs
+      · simp only [Option.some.injEq] at hs; subst hs
+        exact h.frame keep rfl rfl (fun _ => trivial) rfl
+      · simp only [Option.some.injEq] at hs; subst hs
+        exact h.frame keep rfl rfl (fun _ => trivial) rfl
+    · simp at hs
+  · simp at hs
+
+theorem invC_reachable {cfg : Cfg} {n : Nat} {s : State} (hr : Reachable cfg n s) : InvC cfg s := by
+  induction hr with
+  | init => exact invC_init cfg n
+  | step c hr' hs ih =>
+    cases c with
+    | main c => exact invC_stepMain cfg c ih hs
+    | worker i spur => exact invC_stepWorker cfg i spur (invA_reachable hr') ih hs
+
+/-! ### two workers never hold the same ticket -/
+
+theorem count_flatMap_append {α : Type} (f g : α → List Nat) (l : List α) (t : Nat) :
+    count t (l.flatMap fun a => f a ++ g a) = count t (l.flatMap f) + count t (l.flatMap g) := by
+  induction l with
+  | nil => simp
+  | cons x xs ih => simp only [flatMap_cons, count_append, ih]; omega
+
+theorem count_two_le_flatMap {α : Type} (f : α → List Nat) (l : List α) (i j : Nat) (a b : α) (t : Nat)
+    (hi : l[i]? = some a) (hj : l[j]? = some b) (hij : i ≠ j) (c : α) (hc : f c = []) :
+    count t (f a) + count t (f b) ≤ count t (l.flatMap f) := by
+  have h1 := count_flatMap_set f l i a c t hi
+  have hj' : (l.set i c)[j]? = some b := by rw [getElem?_set]; simp [hij, hj]
+  have h2 := count_le_flatMap f (l.set i c) j b t hj'
+  rw [hc, count_nil] at h1
+  omega
+
+theorem count_le_one_of_nodup (l : List Nat) (t : Nat) (h : l.Nodup) : count t l ≤ 1 := by
+  induction l with
+  | nil => simp
+  | cons x xs ih =>
+    rw [nodup_cons] at h
+    rw [count_cons]
+    by_cases hx : x = t
+    · subst hx
+      have : count x xs = 0 := by
+        rcases Nat.eq_zero_or_pos (count x xs) with h0 | h0
+        · exact h0
+        · exact absurd (count_pos_iff.1 h0) h.1
+      simp [this]
+    · have := ih h.2
+      simp [hx]; exact this
+
+theorem getNextWork_started (s : State) (i : Nat) : (getNextWork s i).started = s.started := by
+  unfold getNextWork
+  split
+  · rfl
+  · split <;> rfl
+
 end Sqfs.Pool
